@@ -135,7 +135,9 @@ def ContinuousConditional(cond, true_value, false_value, sigma=1.0):
         )
 
     # Create Heaviside
-    H = 1 / (1 + sympy.exp((cond.args[0] - cond.args[1]) / sigma))
+    # (the exponential is not evaluated: sympy would split exp(x/sigma - c/sigma) into
+    # exp(-c/sigma) * exp(x/sigma), two factors that under- and overflow on their own)
+    H = 1 / (1 + sympy.exp((cond.args[0] - cond.args[1]) / sigma, evaluate=False))
 
     # Decides which should be weighted with 1 and 0
     if ">" in cond.rel_op:
